@@ -39,6 +39,8 @@ MUTATORS = {
     "clearGuidelines", "clearImage", "move", "round", "correctContourDirection", "decomposeComponent", "decomposeAllComponents",
     "renameGlyph", "renameLayer", "addAxis", "addSource", "addInstance", "addRule", "addVariableFont", "addAxisDescriptor", "addSourceDescriptor",
     "loadSourceFonts", "setGlyphOrder", "importXML", "write", "save", "close", "normalize",
+    # DesignSpaceDocument.findDefault() "updates the document's `default` value" (it assigns self.default)
+    "findDefault",
 }
 # library methods that write into their FIRST ARGUMENT (fontMath: MathGlyph.extractGlyph(glyph), MathInfo.extractInfo(info),
 # MathKerning.extractKerning(font))
@@ -612,6 +614,8 @@ class Analysis:
         self.ctxs = {}
         self.SRC = self.obj("SRC", "SRC", label="SRC")
         self.GS = self.obj("GS", "GS", label="GS")
+        self.SRCF = None  # designspace roots: the fonts attached to the source descriptors (what `.font` yields)
+        self.src_not = {}  # source blob -> classes none of its objects is an instance of (input domain of the root)
         self.NONE = self.obj("NONE", "NONE", label="None")
         self.EXC = self.obj("cont", "EXC", label="raised exceptions")
         self.alarms = {}
@@ -1834,14 +1838,14 @@ class Analysis:
                 return self.ev(lt[2], ctx)
         if self.is_initial_read(ctx.func, node):
             r = set(self.V[(ctx.key, node.id + "@in")])
-            return self.apply_narrow(r, ctx, node.id) if self.narrow and not self.deferred else r
+            return self.apply_narrow(r, ctx, node.id, node) if self.narrow and not self.deferred else r
         if not self.deferred and isinstance(node.ctx, ast.Load):
             r = self.read_local(ctx, node)
             if r is not None:
-                return self.apply_narrow(r, ctx, node.id) if self.narrow else r
+                return self.apply_narrow(r, ctx, node.id, node) if self.narrow else r
         r = self.lookup(node.id, ctx, node.lineno)
         if r is not None:
-            return self.apply_narrow(set(r), ctx, node.id) if self.narrow and not self.deferred else set(r)
+            return self.apply_narrow(set(r), ctx, node.id, node) if self.narrow and not self.deferred else set(r)
         mod = ctx.func.module
         if node.id in mod.__dict__:
             return self.wrap_py(mod.__dict__[node.id], f"{mod.__name__}.{node.id}")
@@ -1861,7 +1865,9 @@ class Analysis:
         out = set()
         for o in objs:
             if o.kind in ("SRC", "GS"):
-                if name not in SCALAR_LIB_ATTRS:
+                if name == "font" and o is self.SRC and self.SRCF is not None:
+                    out.add(self.SRCF)  # descriptor.font (designspace roots)
+                elif name not in SCALAR_LIB_ATTRS:
                     out.add(o)
             elif o.kind == "NONE":
                 continue
@@ -2130,8 +2136,24 @@ class Analysis:
             return types.ModuleType
         return None
 
+    def source_model(self, kind, doc_classes=()):
+        """What the caller's argument is (the documented input domain of the public function analysed):
+        "ufo": a UFO font object or a list of them -- no object reachable from it is a designspace document;
+        "designspace": a DesignSpaceDocument; the fonts hang off its source descriptors' `.font` attribute and are UFO
+        font objects as above (a second source blob, SRC.font, stands for them and everything below them)."""
+        if kind == "ufo":
+            self.src_not[self.SRC] = tuple(doc_classes)
+        elif kind == "designspace":
+            self.SRCF = self.obj("SRC", "SRCF", label="SRC.font")
+            self.src_not[self.SRCF] = tuple(doc_classes)
+
     def instance_verdict(self, o, classes):
         """True / False if `isinstance(value of o, classes)` is certain, None otherwise"""
+        if o.kind in ("SRC", "GS"):
+            ex = self.src_not.get(o, ())
+            if ex and all(isinstance(c, type) and any(issubclass(c, e) for e in ex) for c in classes):
+                return False
+            return None
         t = self.pytype_of(o)
         if t is None:
             return None
@@ -2170,10 +2192,8 @@ class Analysis:
     def elements(self, objs):
         out = set()
         for o in objs:
-            if o.kind == "SRC":
-                out.add(self.SRC)
-            elif o.kind == "GS":
-                out.add(self.GS)
+            if o.kind in ("SRC", "GS"):
+                out.add(o)
             elif o.kind in ("NONE", "cls", "mod", "func", "bound"):
                 continue
             elif o.kind == "glob":
@@ -2204,7 +2224,9 @@ class Analysis:
         if idx is not None and self.narrow and not self.deferred and isinstance(node.value, ast.Name) and isinstance(node.ctx, ast.Load) \
                 and self.is_initial_read(ctx.func, node.value):
             r = self._subscript_const(base, idx)
-            for ck, nm, f in self.narrow:
+            for ck, nm, f, until in self.narrow:
+                if until is not None and (node.lineno, node.col_offset) >= until:
+                    continue
                 if ck == ctx.key and nm == node.value.id and f[0] == "sub" and f[1] == idx:
                     _, _, classes, positive = f
                     if positive and all(c in self.SCALAR_TYPES for c in classes):
@@ -2603,7 +2625,7 @@ class Analysis:
                 callees |= self.bind(v, o, k, name)
                 return set()
             out = set()
-            for c in self.F[(o, name)]:
+            for c in self.F[(o, name)] | self.F[(o, "*")] | (self.F[(o, "dunder:__getattr__")] if k is None else set()):
                 callees.add(c)
             if k is None and not self.F[(o, name)]:
                 return set()
@@ -2794,7 +2816,7 @@ class Analysis:
         self.add(self.F[(e, "[]")], {e})
         for d in docs:
             if d.kind in ("SRC", "GS"):
-                self.add(self.F[(e, "font")], {d})
+                self.add(self.F[(e, "font")], {self.SRCF if (d is self.SRC and self.SRCF is not None) else d})
                 if shallow:
                     # split.py builds the sub-document from NEW descriptors but hands most of their field values over
                     # by reference (subDoc.lib = doc.lib, labelNames, mutedGlyphNames, rule.subs, vf.lib, ...)
@@ -3208,6 +3230,14 @@ class Analysis:
         A = self.all_args(args, kwargs, star_kw)
         if name in ("exec", "eval", "globals", "locals", "__import__", "__build_class__"):
             self.flag(node, f"{name}()")
+            return set()
+        if name == "hasattr" and len(args) == 2 and args[1][0] not in (None, "*"):
+            nms = self.strs(args[1][0], ctx)
+            if nms is not None:
+                for nm in nms:
+                    self.getattr_objs({o for o in args[0][1] if o.kind == "inst"}, nm, node, ctx)  # runs an analysed property getter
+            else:
+                self.getattr_any({o for o in args[0][1] if o.kind == "inst"}, node, ctx)
             return set()
         if name in PURE_BUILTINS:
             return set()  # catalogue: these neither keep, return, mutate nor CALL their arguments
@@ -3740,7 +3770,17 @@ class Analysis:
                 return
             base = self.ev(target.value, ctx)
             self.mutate(base, target, f".{target.attr} = …")
+            if target.attr in ("__class__", "__dict__", "__bases__", "__slots__") and any(o.kind in ("inst", "cls") for o in base):
+                self.flag(target, f"assignment to {target.attr}")
             for o in base:
+                if o.kind == "inst":
+                    # a property with an analysed setter: the store RUNS the setter
+                    k_, pv_ = self.class_attr(o.py, target.attr)
+                    if isinstance(pv_, property) and pv_.fset is not None:
+                        sfn = self.func_of(pv_.fset)
+                        if sfn is not None:
+                            self.call_func(sfn, [{o}, set(val)], {}, target, ctx)
+                            continue
                 if o.kind not in ("SRC", "GS", "NONE"):
                     v2 = val
                     if o.kind == "inst":
@@ -3831,8 +3871,16 @@ class Analysis:
         self._narrowings(test, ctx, positive, out)
         res = []
         for name, f in out:
-            if name in self.locals_of(ctx.func) and name not in self._bindings(ctx.func)[1] and not self._binds_in(region, name):
-                res.append((ctx.key, name, f))
+            if name in self.locals_of(ctx.func) and name not in self._bindings(ctx.func)[1]:
+                # valid up to the first statement of the guarded region that rebinds the variable
+                until = None
+                for st in region:
+                    if self._binds_in([st], name):
+                        until = (st.lineno, st.col_offset)
+                        break
+                if until is not None and (not region or until <= (region[0].lineno, region[0].col_offset)):
+                    continue
+                res.append((ctx.key, name, f, until))
         return res
 
     def _narrowings(self, t, ctx, positive, out):
@@ -3881,9 +3929,11 @@ class Analysis:
                     return True
         return False
 
-    def apply_narrow(self, vals, ctx, name):
-        for ck, nm, f in self.narrow:
+    def apply_narrow(self, vals, ctx, name, node=None):
+        for ck, nm, f, until in self.narrow:
             if nm != name or ck != ctx.key or f[0] == "sub":
+                continue
+            if until is not None and (node is None or (node.lineno, node.col_offset) >= until):
                 continue
             if f[0] == "isinstance":
                 _, classes, positive = f
@@ -4004,8 +4054,16 @@ class Analysis:
                 self.run_body(h.body, ctx)
             self.run_body(s.orelse, ctx)
             self.run_body(s.finalbody, ctx)
-        elif isinstance(s, ast.FunctionDef):
-            self.add(self.V[(ctx.key, s.name)], {self.closure(s, ctx)})
+        elif isinstance(s, (ast.FunctionDef, ast.AsyncFunctionDef)):
+            fo = {self.closure(s, ctx)}
+            for d in s.decorator_list:
+                # name = decorator(function): what the decorator returns is what the name is bound to
+                dv = self.ev(d, ctx)
+                res = set()
+                for dc in dv:
+                    res |= self.apply(dc, d, [(None, set(fo))], {}, set(), ctx)
+                fo = fo | res  # (keeping the undecorated function as a possible value is an over-approximation)
+            self.add(self.V[(ctx.key, s.name)], fo)
         elif isinstance(s, ast.ClassDef):
             # the class object does not exist at analysis time: its methods would silently stay unanalysed
             self.flag(s, "class defined inside a function")
